@@ -372,6 +372,54 @@ Fixpoint issued (ops : list op) : list (pystr * pystr) :=
   | _ :: r => issued r
   end.
 
+(* ---- hybrid / implicit front-channel responses, recombined member by member ----
+   What a provider hands out for ONE flow: the state and the nonce the flow was started with, the code and the
+   access token issued for it at the authorization endpoint, and its ID Token (fl_jwt names the compact
+   serialisation, fl_idt is what that JWS is).  A front-channel response of any response type ("code",
+   "code id_token", "code token", "code id_token token", "id_token token", "id_token", "token") names a state
+   and carries up to three more members; the adversary takes each member from whatever flow it likes. *)
+Record flow := mkFlow { fl_state : pystr; fl_nonce : pystr; fl_code : pystr; fl_atok : pystr;
+                        fl_jwt : pystr; fl_idt : token }.
+Record hybrid := mkHybrid { hy_state : flow; hy_code : option flow; hy_idt : option flow; hy_atok : option flow }.
+
+Definition hybrid_params (h : hybrid) : record :=
+  ((PS "state", VStr (fl_state (hy_state h))) ::
+   match hy_code h with Some f => [(PS "code", VStr (fl_code f))] | None => [] end ++
+   match hy_atok h with
+   | Some f => [(PS "access_token", VStr (fl_atok f)); (PS "token_type", VStr (PS "Bearer"))]
+   | None => []
+   end ++
+   match hy_idt h with Some f => [(PS "id_token", VStr (fl_jwt f))] | None => [] end)%list.
+Definition hybrid_response (h : hybrid) : response :=
+  mkResp (hybrid_params h) (match hy_idt h with Some f => Some (fl_idt f) | None => None end).
+
+(* ground truth of a recombination: every member present comes from the flow the state names *)
+Definition same_flow (f g : flow) : bool := str_eqb (fl_state f) (fl_state g).
+Definition member_own (h : hybrid) (m : option flow) : bool :=
+  match m with Some f => same_flow f (hy_state h) | None => true end.
+Definition hybrid_own (h : hybrid) : bool :=
+  member_own h (hy_code h) && member_own h (hy_idt h) && member_own h (hy_atok h).
+
+(* what "the ID Token of flow f" means (the provider side of OIDC Core 3.3.2.11): every nonce / c_hash /
+   at_hash claim it states is the flow's own nonce / the left hash of the flow's own code / access token;
+   the values handed out are not empty *)
+Definition claim_only (t : token) (k s : pystr) : Prop := forall v, In (k, v) (t_claims t) -> v = VStr s.
+Definition genuine_flow (lhash : pystr -> pystr -> pystr) (f : flow) : Prop :=
+  claim_only (fl_idt f) (PS "nonce") (fl_nonce f) /\
+  claim_only (fl_idt f) (PS "c_hash") (lhash (hash_bits (t_alg (fl_idt f))) (fl_code f)) /\
+  claim_only (fl_idt f) (PS "at_hash") (lhash (hash_bits (t_alg (fl_idt f))) (fl_atok f)) /\
+  fl_nonce f <> [] /\ fl_code f <> [] /\ fl_atok f <> [] /\ fl_jwt f <> [].
+(* freshness of what the client draws and the provider issues, and no collision of the left hash on the
+   issued values: two flows of the universe that agree on one of them are the same flow *)
+Definition separate_flows (lhash : pystr -> pystr -> pystr) (fs : list flow) : Prop :=
+  forall f g, In f fs -> In g fs ->
+    (fl_nonce f = fl_nonce g -> f = g) /\
+    (forall b, lhash b (fl_code f) = lhash b (fl_code g) -> f = g) /\
+    (forall b, lhash b (fl_atok f) = lhash b (fl_atok g) -> f = g).
+Definition hybrid_within (fs : list flow) (h : hybrid) : Prop :=
+  In (hy_state h) fs /\ (forall f, hy_code h = Some f -> In f fs) /\
+  (forall f, hy_idt h = Some f -> In f fs) /\ (forall f, hy_atok h = Some f -> In f fs).
+
 (* ---- comparison helpers for generated case files ---- *)
 Definition db_snapshot := list (pystr * record).
 Definition db_eqb (a b : list (pystr * record)) : bool :=
